@@ -97,6 +97,38 @@ def default_solver(c, kind, n=3):
             c.eq(f'level[{k + 1}]_satisfies_the_backward_euler_recurrence', (np.eye(n) + dt * A(th) * (1 + t1)) @ u[:, k + 1], u[:, k] + dt * f(th) * (1 - t1), tol=1e-9)
 
 
+def pde_model_table_observation(c, range_kind, time_obs):
+    """PDE-based model whose observation is a TABLE (observation nodes x observation times: time_obs='all' or several explicit times) with a 2-D range
+    geometry: the model output is the parameter vector of that table in the range geometry (entry (node i, time k) at position i*n_t + k for the
+    row-major geometries), for plain, CUQIarray and Samples input; `funvals` of the output is the table itself (bounded stand-in: native)"""
+    from cuqi.geometry import Continuous2D, Image2D
+    from cuqi.model import PDEModel
+    from cuqi.array import CUQIarray
+    from cuqi.samples import Samples
+    n = 5                                                    # (the library interpolates with cubic splines: at least four nodes and four time levels)
+    times = np.array([0.0, 0.2, 0.5, 0.6, 0.8])
+    tobs = 'all' if time_obs == 'all' else times[[1, 3]].copy()
+    nt = 5 if time_obs == 'all' else 2
+    grid = np.linspace(0, 1, n)
+    D = -2.0 * np.eye(n) + np.eye(n, k=1) + np.eye(n, k=-1); D[-1, -1] = -2.5
+    pde = TimeDependentLinearPDE(lambda p, t: (D * (1 + 0.1 * t), 0.2 * p * (1 - t), p), times, time_obs=tobs, grid_sol=grid, grid_obs=grid, method='backward_euler')
+    gr = Continuous2D((grid, times if time_obs == 'all' else tobs)) if range_kind == 'Continuous2D' else Image2D((n, nt))
+    model = PDEModel(pde, range_geometry=gr, domain_geometry=n)
+    p = np.array([c.real(f'p{i}') for i in range(n)])
+    pde.assemble(p); sol, _ = pde.solve(); table = np.asarray(pde.observe(sol), dtype=float)
+    c.holds('harness:observation_is_a_table', table.shape == (n, nt), note=str(table.shape))
+    out = model.forward(p)
+    c.eq('model_output_is_the_parameter_vector_of_the_observed_table', np.asarray(out), table.ravel(), tol=1e-12)
+    oa = model.forward(CUQIarray(p.copy(), geometry=model.domain_geometry))
+    c.eq('function_values_of_the_output_are_the_observed_table', np.asarray(oa.funvals), table, tol=1e-12)
+    S = model.forward(Samples(np.stack([p, 0.5 * p], axis=-1), model.domain_geometry))
+    pde.assemble(0.5 * p); sol2, _ = pde.solve(); table2 = np.asarray(pde.observe(sol2), dtype=float)
+    c.eq('samples_column[1]_is_the_parameter_vector_of_its_observed_table', S.samples[:, 1], table2.ravel(), tol=1e-12)
+    # an interior observation time coincides with a time level: that column of the table is the solution at that level
+    k = 1 if time_obs == 'all' else 0                       # the table column that belongs to time level 1 (times[1])
+    c.eq('table_column_at_a_coinciding_time_is_the_solution_level', table[:, k], np.asarray(sol)[:, 1], tol=1e-7)
+
+
 def steady_observe(c, n=3, same_grid=True, obsmap=True):
     A, f, _ = _form(c, n)
     grid = np.linspace(0, 1, n); gobs = grid if same_grid else np.linspace(0.1, 0.9, 2)
@@ -341,4 +373,8 @@ def jobs(tier):
         J.append(Job(f'PDE.observe:after_assigning_a_new_solution_grid:{kind}', lambda c, kind=kind: observe_after_regridding(c, kind), 'Pbox',
                      F('PDE.grid_sol', 'SteadyStateLinearPDE.observe', 'TimeDependentLinearPDE.observe'), extra=_extra))
     J.append(Job('PDEModel:assemble_solve_observe_and_gradient_dispatch', pde_model, 'Pbox', ['cuqi.model._model:PDEModel._forward_func', 'cuqi.model._model:PDEModel._gradient_func'], extra=_extra))
+    for rk in ('Continuous2D', 'Image2D'):
+        for to in ('all', 'explicit_pair'):
+            J.append(Job(f'PDEModel:table_observation:range_geometry={rk}:time_obs={to}', lambda c, rk=rk, to=to: pde_model_table_observation(c, rk, to), 'B',
+                         ['cuqi.model._model:PDEModel._forward_func'] + F('TimeDependentLinearPDE.observe'), nnum=3))
     return J
